@@ -19,7 +19,16 @@ func main() {
 	repo := flag.String("repo", "/repo", "repository root")
 	verif := flag.String("verif", "/verif", "verif root")
 	dump := flag.String("dump", "", "debug: dump path facts for function (pkg-relative, e.g. /store:(*UserHash).Add)")
+	mutant := flag.String("mutant", "", "self-test: JSON file {file, old, new} describing one in-memory edit of /repo (applied through an overlay)")
 	flag.Parse()
+	if *mutant != "" {
+		ov, err := rules.LoadMutant(*repo, *mutant)
+		if err != nil {
+			fmt.Println("MUTANT-SKIP:", err)
+			os.Exit(3)
+		}
+		rules.Overlay = ov
+	}
 	seed := int64(0)
 	if s := os.Getenv("VERIF_SEED"); s != "" {
 		seed, _ = strconv.ParseInt(s, 10, 64)
